@@ -203,6 +203,16 @@ class EvolveAppTask(BaseEvolutionTask):
             applied_migrations = \
                 migration_executor.loader.extra_applied_migrations
 
+            # Initial migrations that are about to be executed in the
+            # pre-evolution stage are recorded by Django when they run.
+            # Recording them here as well would record them twice.
+            pre_migration_targets = state['pre_migration_targets']
+
+            if applied_migrations and pre_migration_targets:
+                pending_migrations = MigrationList()
+                pending_migrations.add_migration_targets(pre_migration_targets)
+                applied_migrations = applied_migrations - pending_migrations
+
             if applied_migrations:
                 record_applied_migrations(connection=evolver.connection,
                                           migrations=applied_migrations)
